@@ -232,6 +232,11 @@ where
                 Ok(format!("range {} {}", r.start, r.end))
             }
             "NC" => self.get(tok[1]).map(|f| format!("n {}", f.node_count())),
+            "COUNTS" => {
+                // package ALLOC: the exact and the approximate (shared counter) number of inner nodes
+                let (e, a) = self.mref.with_manager_shared(|m| (m.num_inner_nodes(), m.approx_num_inner_nodes()));
+                Ok(format!("exact={e} approx={a}"))
+            }
             "CLONE" => match self.get(tok[2]) {
                 Ok(f) => {
                     let f = f.clone();
@@ -1117,6 +1122,7 @@ where
             let k: usize = tok[1].parse().unwrap();
             par_no += 1;
             run_par_block(&mut it, k, &case.ops[idx..end], case.param_u64("seed", 1) ^ (par_no << 32), case.param_u64("yield", 0), out);
+            atrace::drain().into_iter().for_each(&mut *out);
             idx = end + 1;
             continue;
         }
@@ -1127,6 +1133,7 @@ where
             Ok(r) => r,
             Err(e) => format!("err {e}"),
         };
+        atrace::drain().into_iter().for_each(&mut *out);
         out(format!("{line} -> {res}"));
         if snap_each && tok[0] != "SNAP" {
             out(format!("SNAP -> {}", it.snapshot()));
@@ -1433,6 +1440,11 @@ mod vtrace {
         }
 
         fn hook(s: u32, data: &[usize]) {
+            if s >= 32 {
+                // slot allocator events (package ALLOC): own log, see `atrace`
+                crate::atrace::event(s, data);
+                return;
+            }
             if !ON.load(Relaxed) {
                 return;
             }
@@ -1535,6 +1547,11 @@ mod vtrace {
             }
         }
 
+        pub fn install() {
+            if !INSTALLED.swap(true, Relaxed) {
+                oxidd_core::verif::set_hook(Some(Box::new(hook)));
+            }
+        }
         pub fn begin(seed: u64, permille: u64) {
             if !INSTALLED.swap(true, Relaxed) {
                 oxidd_core::verif::set_hook(Some(Box::new(hook)));
@@ -1612,10 +1629,105 @@ mod vtrace {
     }
     #[cfg(not(oxidd_verif))]
     mod imp {
+        pub fn install() {}
         pub fn begin(_seed: u64, _permille: u64) {}
         pub fn set_rendezvous(_permille: u64) {}
         pub fn set_gc_yield(_permille: u64) {}
         pub fn enter_thread(_ti: usize, _seed: u64) {}
+        pub fn end() -> Vec<String> {
+            Vec::new()
+        }
+    }
+    pub use imp::*;
+}
+
+/// Package ALLOC: log of the slot allocator events of the index-based manager (hook sites >= 32 of
+/// /repo, `--cfg oxidd_verif`), switched on for a whole case by the case parameter `alloc=1` and
+/// written out after every operation as lines `EV A <thread> <event> <data ...>` (replayed by
+/// ocaml/alloc_main.ml against the extracted model coq/Mgr/Alloc.v).  Threads are numbered in the
+/// order of their first event within the case.  Without the flag the functions do nothing.
+mod atrace {
+    #[cfg(oxidd_verif)]
+    mod imp {
+        use std::cell::Cell;
+        use std::sync::atomic::{AtomicBool, AtomicU64, AtomicUsize, Ordering::Relaxed};
+        use std::sync::Mutex;
+
+        static AON: AtomicBool = AtomicBool::new(false);
+        static EPOCH: AtomicU64 = AtomicU64::new(0);
+        static NEXT: AtomicUsize = AtomicUsize::new(0);
+        static ALOG: Mutex<Vec<String>> = Mutex::new(Vec::new());
+        thread_local! {
+            static ATID: Cell<(u64, usize)> = const { Cell::new((0, 0)) };
+        }
+
+        fn tid() -> usize {
+            ATID.with(|t| {
+                let (e, i) = t.get();
+                let now = EPOCH.load(Relaxed);
+                if e == now {
+                    i
+                } else {
+                    let i = NEXT.fetch_add(1, Relaxed);
+                    t.set((now, i));
+                    i
+                }
+            })
+        }
+
+        pub fn event(s: u32, data: &[usize]) {
+            if !AON.load(Relaxed) {
+                return;
+            }
+            let name = match s {
+                32 => "N",
+                33 => "B",
+                34 => "P",
+                35 => "S",
+                36 => "R",
+                37 => "F",
+                38 => "L",
+                39 => "D",
+                40 => "T",
+                41 => "G",
+                42 => "C",
+                _ => return,
+            };
+            // the log's mutex is taken while the event's critical section (if any) is still held:
+            // the order of the lines is the order of the critical sections
+            let mut log = ALOG.lock().unwrap();
+            let mut e = format!("EV A {} {name}", tid());
+            for d in data {
+                e.push(' ');
+                e.push_str(&(*d as i64).to_string());
+            }
+            log.push(e);
+        }
+        pub fn begin() {
+            super::super::vtrace::install();
+            EPOCH.fetch_add(1, Relaxed);
+            NEXT.store(0, Relaxed);
+            ALOG.lock().unwrap().clear();
+            AON.store(true, Relaxed);
+        }
+        pub fn drain() -> Vec<String> {
+            if !AON.load(Relaxed) {
+                return Vec::new();
+            }
+            std::mem::take(&mut *ALOG.lock().unwrap())
+        }
+        pub fn end() -> Vec<String> {
+            let v = drain();
+            AON.store(false, Relaxed);
+            v
+        }
+    }
+    #[cfg(not(oxidd_verif))]
+    mod imp {
+        pub fn begin() {}
+        pub fn drain() -> Vec<String> {
+            Vec::new()
+        }
         pub fn end() -> Vec<String> {
             Vec::new()
         }
@@ -1828,6 +1940,7 @@ mod mt {
                 par_no += 1;
                 run_par_core(&mut core, k, &case.ops[idx..end], case.param_u64("seed", 1) ^ (par_no << 32),
                              case.param_u64("yield", 0), out, &|c, t| exec1(c, t, tcap));
+                atrace::drain().into_iter().for_each(&mut *out);
                 idx = end + 1;
                 continue;
             }
@@ -1838,6 +1951,7 @@ mod mt {
                 Ok(r) => r,
                 Err(e) => format!("err {e}"),
             };
+            atrace::drain().into_iter().for_each(&mut *out);
             out(format!("{line} -> {res}"));
             if snap_each && tok[0] != "SNAP" {
                 out(format!("SNAP -> {}", core.snapshot(&[], &|t: &T| t.show())));
@@ -2116,6 +2230,7 @@ mod tv {
                 par_no += 1;
                 run_par_core(&mut core, k, &case.ops[idx..end], case.param_u64("seed", 1) ^ (par_no << 32),
                              case.param_u64("yield", 0), out, &|c, t| exec1(c, t));
+                atrace::drain().into_iter().for_each(&mut *out);
                 idx = end + 1;
                 continue;
             }
@@ -2127,6 +2242,7 @@ mod tv {
                 Ok(r) => r,
                 Err(e) => format!("err {e}"),
             };
+            atrace::drain().into_iter().for_each(&mut *out);
             out(format!("{line} -> {res}"));
             if snap_each && tok[0] != "SNAP" {
                 out(format!("SNAP -> {}", core.snapshot(&[], &|t: &TDDTerminal| show(t))));
